@@ -17,6 +17,13 @@
 #include <urcu/uatomic.h>
 #include <urcu-pointer.h>
 #include <errno.h>
+#ifdef URCU_VERIF
+#include <urcu/verif.h>
+#else
+#ifndef urcu_verif_point
+#define urcu_verif_point(id, ctx) do { } while (0)
+#endif
+#endif
 
 #ifdef __cplusplus
 extern "C" {
@@ -142,6 +149,7 @@ void _cds_lfq_enqueue_rcu(struct cds_lfq_queue_rcu *q,
 		next = uatomic_cmpxchg_mo(&tail->next, NULL, node,
 					CMM_SEQ_CST, CMM_SEQ_CST);
 		if (next == NULL) {
+			urcu_verif_point(URCU_VP_LFQ_ENQ_LINKED, q);
 			/*
 			 * Tail was at the end of queue, we successfully
 			 * appended to it. Now move tail (another
@@ -155,6 +163,7 @@ void _cds_lfq_enqueue_rcu(struct cds_lfq_queue_rcu *q,
 			 * Failure to append to current tail.
 			 * Help moving tail further and retry.
 			 */
+			urcu_verif_point(URCU_VP_LFQ_ENQ_HELPED, q);
 			(void) uatomic_cmpxchg_mo(&q->tail, tail, next,
 						CMM_SEQ_CST, CMM_SEQ_CST);
 			continue;
@@ -200,11 +209,13 @@ struct cds_lfq_node_rcu *_cds_lfq_dequeue_rcu(struct cds_lfq_queue_rcu *q)
 			enqueue_dummy(q);
 			next = rcu_dereference(head->next);
 		}
+		urcu_verif_point(URCU_VP_LFQ_DEQ_BEFORE_CMPXCHG, q);
 		if (uatomic_cmpxchg_mo(&q->head, head, next,
 					CMM_SEQ_CST, CMM_SEQ_CST) != head)
 			continue;	/* Concurrently pushed. */
 		if (head->dummy) {
 			/* Free dummy after grace period. */
+			urcu_verif_point(URCU_VP_LFQ_DEQ_DUMMY, q);
 			rcu_free_dummy(head);
 			continue;	/* try again */
 		}
